@@ -41,7 +41,7 @@ def push(vm, f, s):
     if isinstance(s, BStr) and s.concrete() is not None: s = s.concrete()
     elif isinstance(s, SymStr):
         t = z3.simplify(s.term)
-        if z3.is_string_value(t): s = t.as_string()
+        if z3.is_string_value(t): s = zstr(t)
     if isinstance(s, str) and f.parts and isinstance(f.parts[-1], str): f.parts[-1] += s
     else: f.parts.append(s)
 
@@ -146,7 +146,7 @@ def _(vm, a, ci):
     if ci.method in ('from_str', 'from_str_nonconst', 'new_const'):
         s = D(vm, t)
         if isinstance(s, SliceRef): s = vm.ref_get(s.ref).items[s.start]
-        return Opaque('Arguments', (z3.simplify(to_sym(s)).as_string(), []))
+        return Opaque('Arguments', (zstr(z3.simplify(to_sym(s))), []))
     bs = vm.ref_get(t.ref).items[t.start:t.end] if isinstance(t, SliceRef) else None
     if bs is None: raise Unmodelled('format template ' + repr(t))
     argv = a[1] if len(a) > 1 else None
